@@ -30,7 +30,10 @@ func wrapCtx(kind string, f *fakeConn) ctxIO {
 	case "netctx.PacketConn":
 		c := netctx.NewPacketConn(f)
 		return ctxIO{
-			func(ctx context.Context, b []byte) (int, error) { n, _, err := c.ReadFromContext(ctx, b); return n, err },
+			func(ctx context.Context, b []byte) (int, error) {
+				n, _, err := c.ReadFromContext(ctx, b)
+				return n, err
+			},
 			func(ctx context.Context, b []byte) (int, error) { return c.WriteToContext(ctx, b, fakeAddr("peer")) },
 		}
 	}
@@ -249,6 +252,6 @@ func init() {
 			}
 			return out
 		},
-		Rule: "for netctx.Conn, netctx.PacketConn and connctx over a scheduler-visible pipe (4-byte stream buffer with partial writes / 1-datagram queue): one context-controlled read or write whose context is cancelled by a separate thread at every possible point (before, during, after), a peer thread, then a probe operation with a live context; every interleaving within the deviation bound",
+		Rule:        "for netctx.Conn, netctx.PacketConn and connctx over a scheduler-visible pipe (4-byte stream buffer with partial writes / 1-datagram queue): one context-controlled read or write whose context is cancelled by a separate thread at every possible point (before, during, after), a peer thread, then a probe operation with a live context; every interleaving within the deviation bound",
 		Assumptions: []string{"the wrapped connection is the harness's fake with exact deadline semantics (a passed deadline fails the blocked and every later operation until reset)"}})
 }
